@@ -320,7 +320,7 @@ PROPERTIES = {
         "level": "exploration",
         "rule": ("declared module trees (2..25 nodes, depth <= 4, fan-out <= 4, sibling names from {a, ab, a1, b, a[0], abc, node, node1, node10, x_y, non-ASCII}, "
                  "0..4 start stages per module, nodes created directly or through a ModuleBlock with a scoped builder) inserted in EVERY valid order (parents first) "
-                 "for trees of <= 6 nodes and in random valid orders above; each module schedules a self message; a twelfth of the modules reports an error from at_sim_end (run() must return an error and every module is still torn down exactly once). All at_sim_start / handle_message / at_sim_end "
+                 "for trees of <= 6 nodes and in random valid orders above; each module schedules a self message; a twelfth of the modules reports an error from at_sim_end (run() must return an error and every module is still torn down exactly once), a twelfth shuts itself down in its first start-up stage (its remaining declared stages are still delivered). All at_sim_start / handle_message / at_sim_end "
                  "calls log into one sequence. Oracle from the declaration alone: start sequence == stage-major x depth-first pre-order with siblings in creation "
                  "order, exactly once per declared stage; at_sim_end exactly once per module and after the last event callback; current().path / name / parent / "
                  "child agree with the tree inside every callback; Sim::nodes() == declared set; duplicate path and missing parent rejected by a panic (fresh "
@@ -342,7 +342,7 @@ PROPERTIES = {
         "level": "exploration",
         "rule": ("1..2 device-under-test modules with stacks of 0..4 elements from {pass, tag (sets a bit in the message), consume-if(id % m == r), chatty (sends a message "
                  "from every hook)}, supplied globally through set_stack, per module through Module::stack (element by element or as one appended stack), or both; 3..42 self messages at distinct instants, a task "
-                 "with timer wake-ups, 1..2 start stages, optionally shutdown-and-restart (restart stages), tear-down (a sixth of the modules reports an error from at_sim_end, which run() must return); handlers optionally send two messages. All hooks, "
+                 "with timer wake-ups, 1..2 start stages, optionally shutdown-and-restart (restart stages), tear-down (a sixth of the modules reports an error from at_sim_end, which run() must return); handlers optionally send two messages; a sixth of the modules (catching stereotype) panics in the handler of one message: that event is closed like any other and the module is inert afterwards. All hooks, "
                  "handlers, task wake-ups and the receptions of the messages sent from hooks log into one sequence. Oracle = bracket grammar per module event: "
                  "event_start exactly once per element in stack order; incoming only after that element's start, in order, element i+1 sees exactly the tags "
                  "element i returned, stops at the first consumer; handler iff nobody consumed, with the final tags; event_end once per element in reverse order "
@@ -368,12 +368,12 @@ PROPERTIES = {
         "crash_is_violation": True,
         "rule": ("generated deterministic models (3..5 modules, ring or star, 1..2 start stages, timers that inject tokens which are forwarded with a hop budget, "
                  "optional tasks with timer steps, a quarter of the modules shuts down and restarts after its k-th message); for every model a fault-free baseline run gives the occurrence counts, then EVERY single placement "
-                 "(module x {at_sim_start(stage), start stage of the restart, k-th handle_message before / after its sends, at_sim_end} x {non-catching, catching stereotype}, plus every step "
+                 "(module x {at_sim_start(stage), start stage of the restart, k-th handle_message before / after its sends, at_sim_end} x {non-catching, catching stereotype} (a share of the handler faults is raised inside the simulator: the documented panic of sending on a transit gate), plus every step "
                  "of a joined task) and pairs of placements in two modules (all pairs for small models, 60 sampled otherwise) are executed twice with the real "
                  "code: A panics at the point, B falls silent there. Oracle: A returns (no unwind, no abort: a dead worker counts as violation), the error lists "
                  "exactly the modules whose reached fault is not caught (PanicError / JoinError paths), every non-faulty module's log in A equals its log in B, the "
                  "faulty module handles nothing after the fault and is reported inactive at tear-down, the statics (module context, event buffer, globals) are "
-                 "clean after the drop, and a fixed follow-up simulation in the same process reproduces its reference trace. Non-trivial = every executed "
+                 "clean after the drop, the gates of every module stay usable at tear-down (kind / next_gate), and a fixed follow-up simulation in the same process reproduces its reference trace. Non-trivial = every executed "
                  "placement that checked clean; distinct = hash of (model, faults)."),
         "exhaustive_part": "all single fault placements of every generated model; all pairs for models with <= 60 pairs",
         "assumptions": ["start stages after a faulty stage and at_sim_end are still invoked on a deactivated module by des; what the dead module does there is not judged",
@@ -473,7 +473,7 @@ PROPERTIES = {
         "rule": ("flat dotted-key configurations of 1..8 entries over the segment alphabet {a, al, ali, alice, alicent, b, a1, non-ASCII names, x_y} with '<any>' at "
                  "any depth (also consecutive), entries that address a tested path / a truncated or extended path / a sibling whose name is a prefix, property "
                  "names of 1..2 segments, unique integer values; 1..4 module paths of depth 1..4. Observed through Cfg::capture_for_into and through a real "
-                 "simulation builder with include_cfg before and after the nodes (and their parents) are created, and before creation with nodes that read their own properties while they are constructed: props_keys and prop_raw values. Oracle = "
+                 "simulation builder with include_cfg before and after the nodes (and their parents) are created, before creation with nodes that read their own properties while they are constructed, and with a builder option (with_stack) applied between the include and the creation: props_keys and prop_raw values. Oracle = "
                  "independent matcher (split at '.', '<any>' matches exactly one segment, the rest is the property name, no '<any>' in the name): key sets equal, "
                  "each value is the value of a matching entry, no panic. Typed reads: random sequences of prop::<u64 / String / bool / Vec<u32> / f64> on four "
                  "keys: a successful read pins the type, other types must fail, the pinned / natural type stays readable; in half of the sequences a second configuration is included between the reads (specific or wildcard keys) that carries a value of another type for the properties already typed: type and value must survive. Non-trivial = case with a wildcard "
